@@ -16,213 +16,92 @@
 #define sexp_bignum_normalize(x) x
 #endif
 
-/* The twos complement form of a negative bignum has a -1 sign */
-/* and bits adjusted as usual, extending just the high word with */
-/* leading ones.  Bitwise operations are then performed as usual. */
-/* If the result has a leading extended one from a twos complement */
-/* number, the complement is reversed and sign remains negative. */
-/* Otherwise, the result is positive, the sign is set to 1 and there's */
-/* no need to undo the complement. */
-static void sexp_set_twos_complement (sexp a) {
-  int i, len=sexp_bignum_length(a), carry = 1;
-  sexp_uint_t* data = sexp_bignum_data(a), n;
-  for (i=len-1; i >=0; --i)
-    data[i] = ~data[i];
-  /* sexp_bignum_fxadd with no final carry */
-  i = 0;
-  do { n = data[i];
-       data[i] += carry;
-       carry = (n > (SEXP_UINT_T_MAX - carry));
-  } while (++i<len && carry);
-}
-
-static sexp sexp_twos_complement (sexp ctx, sexp x) {
-  sexp_gc_var1(res);
-  if (sexp_bignump(x) && sexp_bignum_sign(x) < 0) {
-    sexp_gc_preserve1(ctx, res);
-    res = sexp_copy_bignum(ctx, NULL, x, 0);
-    sexp_set_twos_complement(res);
-    sexp_gc_release1(ctx);
-    return res;
-  }
-  return x;
-}
-
-static sexp sexp_fixnum_to_twos_complement (sexp ctx, sexp x, int len) {
-  int i;
-  sexp_gc_var1(res);
-  sexp_gc_preserve1(ctx, res);
-  res = sexp_make_bignum(ctx, len);
-  if (sexp_unbox_fixnum(x) < 0)
-    for (i = len-1; i > 0; i--)
-      sexp_bignum_data(res)[i] = (sexp_uint_t)((sexp_sint_t)-1);
-  sexp_bignum_data(res)[0] = ~(-(sexp_unbox_fixnum(x)));
-  res = sexp_bignum_fxadd(ctx, res, 1);
-  if (sexp_bignum_length(res) == len + 1 && sexp_bignum_data(res)[len] == 1)
-    sexp_bignum_data(res)[len] = -1;
-  if (sexp_unbox_fixnum(x) < 0)
-    sexp_bignum_sign(res) = -1;
-  sexp_gc_release1(ctx);
-  return res;
-}
-
-sexp sexp_bit_and (sexp ctx, sexp self, sexp_sint_t n, sexp x, sexp y) {
 #if SEXP_USE_BIGNUMS
-  sexp_sint_t len, lenx, leny, i;
-#endif
-  sexp_gc_var3(res, x2, y2);
-  if (sexp_fixnump(x) && sexp_fixnump(y)) {
-    return (sexp) ((sexp_uint_t)x & (sexp_uint_t)y);  /* safe to AND tags */
-#if SEXP_USE_BIGNUMS
-  } else if (sexp_fixnump(x) && sexp_bignump(y)) {
-    return sexp_bit_and(ctx, self, n, y, x);
+/* Bitwise and (op 0), ior (op 1) and xor (op 2) on exact integers, at */
+/* least one of them a bignum, viewed as infinite twos complement bit */
+/* strings.  Bignums are sign+magnitude, so the twos complement words */
+/* of a negative operand are computed on the fly (~w + carry).  One */
+/* extra word holds the sign of the result; if it is negative the */
+/* result is converted back to sign+magnitude. */
+static sexp sexp_bit_op (sexp ctx, sexp self, sexp x, sexp y, int op) {
+  sexp_sint_t i, len, nx, ny;
+  sexp_uint_t fx, fy, wx, wy, cx = 1, cy = 1, carry, *dx, *dy, *r;
+  int negx, negy;
+  sexp res;
+  if (sexp_fixnump(x)) {
+    negx = sexp_unbox_fixnum(x) < 0;
+    fx = negx ? -(sexp_uint_t)sexp_unbox_fixnum(x) : (sexp_uint_t)sexp_unbox_fixnum(x);
+    dx = &fx;
+    nx = 1;
   } else if (sexp_bignump(x)) {
-    sexp_gc_preserve3(ctx, res, x2, y2);
-    x2 = sexp_twos_complement(ctx, x);
-    y2 = sexp_twos_complement(ctx, y);
-    if (sexp_fixnump(y2) && sexp_unbox_fixnum(y2) < 0)
-      y2 = sexp_fixnum_to_twos_complement(ctx, y2, sexp_bignum_length(x2));
-    if (sexp_fixnump(y2)) {
-      res = sexp_make_fixnum(sexp_unbox_fixnum(y2) & sexp_bignum_data(x2)[0]);
-    } else if (sexp_bignump(y2)) {
-      lenx = sexp_bignum_length(x2);
-      leny = sexp_bignum_length(y2);
-      if (leny < lenx)
-        res = sexp_copy_bignum(ctx, NULL, x2, 0);
-      else
-        res = sexp_copy_bignum(ctx, NULL, y2, 0);
-      for (i=0, len=sexp_bignum_length(res); i<len; i++)
-        sexp_bignum_data(res)[i]
-          = (i<lenx ? sexp_bignum_data(x2)[i] : sexp_bignum_sign(x2) < 0 ? -1 : 0) &
-            (i<leny ? sexp_bignum_data(y2)[i] : sexp_bignum_sign(y2) < 0 ? -1 : 0);
-      if ((sexp_bignum_sign(x2) < 0 || sexp_bignum_sign(y2) < 0) && ((sexp_sint_t)(sexp_bignum_data(res)[len-1])) < 0) {
-        sexp_set_twos_complement(res);
-        if (sexp_bignum_sign(res) > 0) {
-          sexp_negate_exact(res);
-        }
-      } else if (sexp_bignum_sign(res) < 0) {
-        sexp_negate_exact(res);
-      }
-    } else {
-      res = sexp_type_exception(ctx, self, SEXP_FIXNUM, y2);
-    }
-    sexp_gc_release3(ctx);
-    return sexp_bignum_normalize(res);
-#endif
+    negx = sexp_bignum_sign(x) < 0;
+    dx = sexp_bignum_data(x);
+    nx = sexp_bignum_hi(x);
   } else {
     return sexp_type_exception(ctx, self, SEXP_FIXNUM, x);
   }
+  if (sexp_fixnump(y)) {
+    negy = sexp_unbox_fixnum(y) < 0;
+    fy = negy ? -(sexp_uint_t)sexp_unbox_fixnum(y) : (sexp_uint_t)sexp_unbox_fixnum(y);
+    dy = &fy;
+    ny = 1;
+  } else if (sexp_bignump(y)) {
+    negy = sexp_bignum_sign(y) < 0;
+    dy = sexp_bignum_data(y);
+    ny = sexp_bignum_hi(y);
+  } else {
+    return sexp_type_exception(ctx, self, SEXP_FIXNUM, y);
+  }
+  len = (nx > ny ? nx : ny) + 1;
+  res = sexp_make_bignum(ctx, len);
+  if (sexp_exceptionp(res)) return res;
+  r = sexp_bignum_data(res);
+  for (i=0; i<len; i++) {
+    wx = i < nx ? dx[i] : 0;
+    if (negx) { wx = ~wx + cx; cx = (cx && wx == 0); }
+    wy = i < ny ? dy[i] : 0;
+    if (negy) { wy = ~wy + cy; cy = (cy && wy == 0); }
+    r[i] = (op == 0) ? (wx & wy) : (op == 1) ? (wx | wy) : (wx ^ wy);
+  }
+  if ((sexp_sint_t)r[len-1] < 0) {
+    for (i=0, carry=1; i<len; i++) {
+      r[i] = ~r[i] + carry;
+      carry = (carry && r[i] == 0);
+    }
+    sexp_bignum_sign(res) = -1;
+  }
+  return sexp_bignum_normalize(res);
+}
+#endif
+
+sexp sexp_bit_and (sexp ctx, sexp self, sexp_sint_t n, sexp x, sexp y) {
+  if (sexp_fixnump(x) && sexp_fixnump(y))
+    return (sexp) ((sexp_uint_t)x & (sexp_uint_t)y);  /* safe to AND tags */
+#if SEXP_USE_BIGNUMS
+  return sexp_bit_op(ctx, self, x, y, 0);
+#else
+  return sexp_type_exception(ctx, self, SEXP_FIXNUM, sexp_fixnump(x) ? y : x);
+#endif
 }
 
 sexp sexp_bit_ior (sexp ctx, sexp self, sexp_sint_t n, sexp x, sexp y) {
+  if (sexp_fixnump(x) && sexp_fixnump(y))
+    return (sexp) ((sexp_uint_t)x | (sexp_uint_t)y);
 #if SEXP_USE_BIGNUMS
-  sexp_sint_t len, tmplen, i;
+  return sexp_bit_op(ctx, self, x, y, 1);
+#else
+  return sexp_type_exception(ctx, self, SEXP_FIXNUM, sexp_fixnump(x) ? y : x);
 #endif
-  sexp_gc_var2(res, tmp);
-  if (sexp_fixnump(x)) {
-    if (sexp_fixnump(y))
-      res = (sexp) ((sexp_uint_t)x | (sexp_uint_t)y);
-#if SEXP_USE_BIGNUMS
-    else if (sexp_bignump(y))
-      res = sexp_bit_ior(ctx, self, n, y, x);
-#endif
-    else
-      res = sexp_type_exception(ctx, self, SEXP_FIXNUM, y);
-#if SEXP_USE_BIGNUMS
-  } else if (sexp_bignump(x)) {
-    sexp_gc_preserve2(ctx, res, tmp);
-    if (sexp_fixnump(y) && sexp_unbox_fixnum(y) >= 0) {
-      res = sexp_copy_bignum(ctx, NULL, x, 0);
-      if (sexp_bignum_sign(res) < 0)
-        sexp_set_twos_complement(res);
-      sexp_bignum_data(res)[0] |= (sexp_uint_t)sexp_unbox_fixnum(y);
-      if (sexp_bignum_sign(res) < 0)
-        sexp_set_twos_complement(res);
-    } else if (sexp_bignump(y) || sexp_fixnump(y)) {
-      if (sexp_fixnump(y) || sexp_bignum_length(x) >= sexp_bignum_length(y)) {
-        res = sexp_copy_bignum(ctx, NULL, x, 0);
-        len = sexp_bignum_length(res);
-        tmp = sexp_fixnump(y) ? sexp_fixnum_to_twos_complement(ctx, y, len) : sexp_twos_complement(ctx, y);
-      } else {
-        res = sexp_copy_bignum(ctx, NULL, y, 0);
-        len = sexp_bignum_length(res);
-        tmp = sexp_twos_complement(ctx, x);
-      }
-      if (sexp_bignum_sign(res) < 0)
-        sexp_set_twos_complement(res);
-      tmplen = sexp_bignum_length(tmp);
-      for (i=0; i<len; i++)
-        sexp_bignum_data(res)[i] |= (i<tmplen ? sexp_bignum_data(tmp)[i] : sexp_bignum_sign(tmp) < 0 ? -1 : 0);
-      if ((sexp_bignum_sign(res) < 0 || sexp_bignum_sign(tmp) < 0) && ((sexp_sint_t)(sexp_bignum_data(res)[len-1])) < 0) {
-        sexp_set_twos_complement(res);
-        if (sexp_bignum_sign(res) > 0) {
-          sexp_negate_exact(res);
-        }
-      }
-    } else {
-      res = sexp_type_exception(ctx, self, SEXP_FIXNUM, y);
-    }
-    sexp_gc_release2(ctx);
-#endif
-  } else {
-    res = sexp_type_exception(ctx, self, SEXP_FIXNUM, x);
-  }
-  return sexp_bignum_normalize(res);
 }
 
 sexp sexp_bit_xor (sexp ctx, sexp self, sexp_sint_t n, sexp x, sexp y) {
+  if (sexp_fixnump(x) && sexp_fixnump(y))
+    return sexp_make_fixnum(sexp_unbox_fixnum(x) ^ sexp_unbox_fixnum(y));
 #if SEXP_USE_BIGNUMS
-  sexp_sint_t len, tmplen, i;
+  return sexp_bit_op(ctx, self, x, y, 2);
+#else
+  return sexp_type_exception(ctx, self, SEXP_FIXNUM, sexp_fixnump(x) ? y : x);
 #endif
-  sexp_gc_var2(res, tmp);
-  if (sexp_fixnump(x)) {
-    if (sexp_fixnump(y))
-      res = sexp_make_fixnum(sexp_unbox_fixnum(x) ^ sexp_unbox_fixnum(y));
-#if SEXP_USE_BIGNUMS
-    else if (sexp_bignump(y))
-      res = sexp_bit_xor(ctx, self, n, y, x);
-#endif
-    else
-      res = sexp_type_exception(ctx, self, SEXP_FIXNUM, y);
-#if SEXP_USE_BIGNUMS
-  } else if (sexp_bignump(x)) {
-    sexp_gc_preserve2(ctx, res, tmp);
-    if (sexp_fixnump(y) && sexp_unbox_fixnum(y) >= 0) {
-      res = sexp_copy_bignum(ctx, NULL, x, 0);
-      if (sexp_bignum_sign(res) < 0)
-        sexp_set_twos_complement(res);
-      sexp_bignum_data(res)[0] ^= sexp_unbox_fixnum(y);
-      if (sexp_bignum_sign(res) < 0)
-        sexp_set_twos_complement(res);
-    } else if (sexp_bignump(y) || sexp_fixnump(y)) {
-      if (sexp_fixnump(y) || sexp_bignum_length(x) >= sexp_bignum_length(y)) {
-        res = sexp_copy_bignum(ctx, NULL, x, 0);
-        tmp = sexp_fixnump(y) ? sexp_fixnum_to_twos_complement(ctx, y, sexp_bignum_length(x)) : sexp_twos_complement(ctx, y);
-        len = sexp_bignum_length(tmp);
-      } else {
-        res = sexp_copy_bignum(ctx, NULL, y, 0);
-        tmp = sexp_twos_complement(ctx, y);
-        len = sexp_bignum_length(tmp);
-      }
-      if (sexp_bignum_sign(res) < 0)
-        sexp_set_twos_complement(res);
-      tmplen = sexp_bignum_length(tmp);
-      for (i=0; i<len; i++)
-        sexp_bignum_data(res)[i] ^= (i<tmplen ? sexp_bignum_data(tmp)[i] : sexp_bignum_sign(tmp) < 0 ? -1 : 0);
-      if ((sexp_bignum_sign(x) < 0) ^ (sexp_fixnump(y) || sexp_bignum_sign(y) < 0))
-        sexp_set_twos_complement(res);
-      if (sexp_fixnump(y) || sexp_bignum_sign(y) < 0) {
-        sexp_negate_exact(res);
-      }
-    } else {
-      res = sexp_type_exception(ctx, self, SEXP_FIXNUM, y);
-    }
-    sexp_gc_release2(ctx);
-#endif
-  } else {
-    res = sexp_type_exception(ctx, self, SEXP_FIXNUM, x);
-  }
-  return sexp_bignum_normalize(res);
 }
 
 static int log2i(sexp_uint_t v) {
